@@ -446,6 +446,29 @@ func runC08Extract(c *fw.Case) {
 			for p := range bad {
 				delete(settled, p)
 			}
+			// with one worker the re-run goes through the index in order and can copy a chunk from an earlier range
+			// of the target it has already passed: an id is settled as well when one of its ranges holds its bytes and
+			// every range that does not lies behind it
+			if n == "1" {
+				first := map[string]int{}
+				for i, ch := range pb.idx.Chunks {
+					s := ch.ID.String()
+					path := "/" + s[:4] + "/" + s + ".cacnk"
+					ok := int(ch.Start+ch.Size) <= len(now) && bytes.Equal(now[ch.Start:ch.Start+ch.Size], pb.blob[ch.Start:ch.Start+ch.Size])
+					if _, seen := first[path]; !seen {
+						if ok {
+							first[path] = i
+						} else {
+							first[path] = -1 // its first range is missing: it has to be fetched
+						}
+					}
+				}
+				for p, i := range first {
+					if i >= 0 && bad[p] {
+						settled[p] = true
+					}
+				}
+			}
 		}
 		g2 := serve()
 		if g2 == nil {
